@@ -3,7 +3,7 @@ from checks import lach_common as lc
 
 
 def run(c):
-    ex = lc.run_exhaustive(c, c.pick(["x11_7"], ["x11_8_full", "x21_8_full", "x211f_6"]), "reference")
+    ex = lc.run_exhaustive(c, c.pick(["x11_7"], ["x11_8_full", "x21_8_full", "x31f_7"]), "reference")
     c.guard("model_dags_with_blocks", ex["total"]["dags_with_blocks"])
     cor = lc.run_exhaustive(c, c.pick(["corpus:variants", "corpus:frames"], ["corpus:variants", "corpus:ties", "corpus:frames", "corpus:forkless", "corpus:structural"]), "reference", orders=4)
     c.guard("corpus_spec_ties", cor["total"].get("spec_ties", 0))
